@@ -283,6 +283,9 @@ def validate_cascade(framework, cascade, cascade_name=None, fallback_used: bool 
     expanded = sc.odict()
     for stage, includes in cascade_dict.items():
         expanded[stage] = framework.get_charac_includes(includes)
+        duplicated = sorted({x for x in expanded[stage] if expanded[stage].count(x) > 1})
+        if duplicated:
+            raise InvalidCascade('Stage "%s" counts the compartments %s more than once after expanding characteristics' % (stage, duplicated))
 
     pop_types = set()
     comps = framework.comps
